@@ -1,12 +1,12 @@
 package props
 
 import (
-	"runtime"
 	"bytes"
 	"encoding/json"
 	"errors"
 	"fmt"
 	"math"
+	"runtime"
 	"strings"
 
 	"verif/harness/mc"
@@ -27,27 +27,27 @@ import (
 var c08Models = []string{"rawdist", "pdist", "jc", "k2p", "f81", "f84", "tn93"}
 
 type c08Case struct {
-	Kind    string      `json:"kind"` // rel | sched | fault
-	Seqs    []string    `json:"seqs"`
-	Model   string      `json:"model"`
-	RmGaps  bool        `json:"rmgaps,omitempty"`
-	GapMut  int         `json:"gapmut,omitempty"`
-	RmAmb   bool        `json:"rmamb,omitempty"` // pdist: ambiguous positions removed from the normalisation
+	Kind   string   `json:"kind"` // rel | sched | fault
+	Seqs   []string `json:"seqs"`
+	Model  string   `json:"model"`
+	RmGaps bool     `json:"rmgaps,omitempty"`
+	GapMut int      `json:"gapmut,omitempty"`
+	RmAmb  bool     `json:"rmamb,omitempty"` // pdist: ambiguous positions removed from the normalisation
 	// Shared: one model value serves every DistMatrix call of the case (as build distboot does for its
 	// replicates); RangeAll: the calls use the range mode with both ranges = all rows
-	Alpha    float64 `json:"alpha,omitempty"` // > 0: gamma-distributed rates with this shape
-	Shared   bool `json:"shared_model,omitempty"`
-	RangeAll bool `json:"range_all,omitempty"`
-	Cpus    int         `json:"cpus,omitempty"`
-	Ranges  []int       `json:"ranges,omitempty"` // r1min r1max r2min r2max
-	FailAt  string      `json:"fail_at,omitempty"` // "dist" | "seq"
-	FailIdx int         `json:"fail_idx,omitempty"`
-	Bound   int         `json:"bound,omitempty"`
-	FnPts   bool        `json:"fn_points,omitempty"` // function entries are scheduling points too
-	MapOrder bool       `json:"map_order,omitempty"` // the iteration order of every map ranged over is explored too (2 deviations)
-	ShardN  int         `json:"shard_n,omitempty"`   // the tree is split over ShardN tasks by the index of the first deviation
-	ShardI  int         `json:"shard_i,omitempty"`
-	Choices []vrt.Point `json:"choices,omitempty"`
+	Alpha    float64     `json:"alpha,omitempty"` // > 0: gamma-distributed rates with this shape
+	Shared   bool        `json:"shared_model,omitempty"`
+	RangeAll bool        `json:"range_all,omitempty"`
+	Cpus     int         `json:"cpus,omitempty"`
+	Ranges   []int       `json:"ranges,omitempty"`  // r1min r1max r2min r2max
+	FailAt   string      `json:"fail_at,omitempty"` // "dist" | "seq"
+	FailIdx  int         `json:"fail_idx,omitempty"`
+	Bound    int         `json:"bound,omitempty"`
+	FnPts    bool        `json:"fn_points,omitempty"` // function entries are scheduling points too
+	MapOrder bool        `json:"map_order,omitempty"` // the iteration order of every map ranged over is explored too (2 deviations)
+	ShardN   int         `json:"shard_n,omitempty"`   // the tree is split over ShardN tasks by the index of the first deviation
+	ShardI   int         `json:"shard_i,omitempty"`
+	Choices  []vrt.Point `json:"choices,omitempty"`
 }
 
 var c08RmAmb bool // set by c08Rel around its calls (the relational part runs one case at a time)
@@ -594,11 +594,11 @@ func c08Sched(c *mc.Ctx, cs c08Case, single bool) {
 		}
 	}
 	ex := &mc.Explorer{
-		Ctx:   c,
-		Opts:  vrt.Options{Sched: true, MaxSteps: 200000, FnPoints: cs.FnPts, MapChoice: cs.MapOrder},
-		Bound: map[string]int{"sched": cs.Bound, "map": 2},
+		Ctx:    c,
+		Opts:   vrt.Options{Sched: true, MaxSteps: 200000, FnPoints: cs.FnPts, MapChoice: cs.MapOrder},
+		Bound:  map[string]int{"sched": cs.Bound, "map": 2},
 		ShardN: cs.ShardN, ShardI: cs.ShardI,
-		Body:  func() any { return run(cs.Cpus) },
+		Body: func() any { return run(cs.Cpus) },
 	}
 	ex.Check = func(x *mc.Execution) {
 		e := x.Exec
@@ -995,7 +995,7 @@ func init() {
 		ID:    "C08",
 		Level: "model_checking",
 		Rule: "schedule part: stateless DFS over all interleavings of the real dna.DistMatrix goroutines (main, producer, cpus workers; scheduling points at every go/channel/mutex/WaitGroup operation) with iterative preemption bounds 0,1,2 (quick) / 0..3 (thorough), for 3 sequences x cpus 1..3 x {k2p (with a +Inf pair), jc}, 4 sequences with overlapping ranges, 15 sequences (105 pairs > channel capacity); " +
-			"function-entry part: 3 sequences, cpus 2 (3 thorough), 5 models, every function entry of goalign (functions of >= 4 statements) an additional scheduling point, preemption bound 1; "+
+			"function-entry part: 3 sequences, cpus 2 (3 thorough), 5 models, every function entry of goalign (functions of >= 4 statements) an additional scheduling point, preemption bound 1; " +
 			"fault part: the same exploration with a DistModel that fails at each Distance call / each Sequence call in turn, and with one that fails at every Distance call from the k-th on (k=0,1; cpus 2,3; preemption bound 2/3); relational part: all alignments of shape 2x1,2x2,3x1,2x3,3x2 (+2x4,3x3 thorough; 3x3 over {A,C,T,-} for pdist and rawdist) over {A,C,G,T,-} x 7 models x rm-gaps x gap-count modes under every column permutation, replication (concat, weights) k=2,3, unit weights, reverse complement, every row permutation, cpus 1,2,3; the shapes of <= 6 cells also with gamma-distributed rates (alpha 0.5), with ONE model value serving all calls of a case (as build distboot does) and, for 2x1, 2x2, 3x1, 3x2, in range mode with both ranges = all rows; thread part (GOMAXPROCS following the thread count, as --threads does): all 2x4 (thorough 2x5) alignments over {A,C,B,V} x {f81,tn93,pdist} (thorough also f84, jc), with and without fractional weights, threads = GOMAXPROCS = 1,2,3,4 must give the same bits. " +
 			"distinct_nontrivial counts distinct (case, schedule) executions of the schedule/fault parts plus relational cases whose matrix has a non-zero entry. states/transitions are nodes/edges of the schedule choice trees.",
 		Assumptions: []string{
